@@ -42,6 +42,17 @@ CHECKS = {
        "Unreadable files not exercised (root). Keys colliding with non-option attributes are outside the model.",
   technique="Rocq proof (generic loader theorem over a statement list regenerated from source by a translator) + differential on every option",
   design="4/C19"),
+ "C18": dict(
+  text="Coq theorems (C18/Props.v): for every directory tree, every configuration (as glob expansions) and every suffix predicate, "
+       "p is in the list the discovery model computes iff p satisfies the specification of the property statement (file, suffix accepted, "
+       "directly in a searched directory, not excluded by path or suffix; searched directories = configured ones, or every directory holding "
+       "a source file when none is configured). The pattern built for additional suffixes means 'name ends in the suffix' for all names (proved "
+       "about the regex engine); the default expression, regenerated from the source on every run, is characterised by a bounded exhaustive check. "
+       "Model tied to LangServer.serve_initialize/_get_source_files by differential execution on generated trees; independent spec+glob as oracle.",
+  note="Trusted: Coq kernel, vm_compute, regex translator + engine fidelity run, differential harness, pathlib/os.walk. Glob results are data of the model. "
+       "An explicitly empty source_dirs list is outside the domain. No symlinks.",
+  technique="Rocq proof (list program = declarative specification; regex search lemma) + model/implementation differential on generated directory trees",
+  design="4/C18"),
 }
 NOT_YET = "not yet built in this round; see DESIGN.md section 8 (build order)"
 
